@@ -142,7 +142,7 @@ func (p *fmter) diffFile(ff []Fragment) {
 func tokenSource(tok Token) string {
 	switch tok.Type {
 	case STRING:
-		return fmt.Sprintf("%q", tok.Lit)
+		return quoteString(tok.Lit)
 	case REGEX:
 		return fmt.Sprintf("/%s/", tok.Lit)
 	case DESCRIPTION:
@@ -153,6 +153,22 @@ func tokenSource(tok Token) string {
 		return fmt.Sprintf("/*%s*/", tok.Lit)
 	}
 	return tok.Lit
+}
+
+// quoteString renders a string literal using only the escapes the lexer
+// accepts: \\, \" and an escaped newline.
+func quoteString(lit string) string {
+	var sb strings.Builder
+	sb.WriteByte('"')
+	for _, r := range lit {
+		switch r {
+		case '\\', '"', '\n':
+			sb.WriteByte('\\')
+		}
+		sb.WriteRune(r)
+	}
+	sb.WriteByte('"')
+	return sb.String()
 }
 
 func (p *fmter) singleLineTokens(src SourceNode, parts ...Token) {
